@@ -24,6 +24,9 @@ pub fn check(tier: Tier) -> Check {
         // well-formed big packets followed by fragments (buffer management must not panic or lose input)
         Part::new("C04/after-big", json!({"sizes": [9000, 70_000, 1_100_000]}), 0, 120),
         // session resumes under a Receive Maximum smaller than the number of open exchanges (arithmetic)
+        // every error the client hands out is printed too (Display / Debug / source(), spec::err_dig):
+        // reason strings whose every byte offset lies inside a multi-byte character for some member
+        Part::new("C04/utf8-align", json!({}), 0, 60),
         Part::new("C04/resume", json!({"depth": 4, "expiry": 1000, "secs_ago": 10, "r2": 1}), 0, 60),
         Part::new("C04/resume", json!({"depth": 4, "expiry": 1000, "secs_ago": 10, "r": 2, "r2": 2}), 0, 60),
         Part::new("C04/trickle", json!({"size": tier.pick(65_536, 2_100_000)}), 0, 120),
@@ -506,6 +509,9 @@ pub fn scenario(name: &str, params: &Value) -> Scenario {
     let name = name.to_string();
     if name == "C04/states" {
         return states(name, params);
+    }
+    if name == "C04/utf8-align" {
+        return super::c02::utf8_align("C04", name, params);
     }
     if name == "C04/resume" {
         return super::c17::scenario_for("C04", &name, &params);
